@@ -95,7 +95,8 @@ def pool(root):
 def names(root):
     up = '/..' * (HOME.count('/'))
     return ['t1.conf', 't2.conf', 't3.conf', 't4.conf', 't5.conf', 't6.conf', 't7.conf', '/dev/null', 'sub/t.conf', 'nosuch.conf', '', 'sub', './t1.conf', '../d3/t2.conf',
-            root + '/d2/t1.conf', root + '/d2/nosuch.conf', root + '/d2', '/', 'tcwd.conf']
+            root + '/d2/t1.conf', root + '/d2/nosuch.conf', root + '/d2', '/', 'tcwd.conf',
+            '~' + up + root + '/d2/t1.conf']        # a tilde form of an existing file: with a search path it is a relative name like any other
 
 
 def tilde_names(root):
@@ -124,6 +125,9 @@ def gen(tier, seed):
         for p_ in others:
             for nm in ('~', '~/x', '~/'):
                 yield {'kind': 'tilde', 'name': nm, 'euid': p_.pw_uid}
+        ghost = next(u for u in range(54321, 60000) if not any(p.pw_uid == u for p in pwd.getpwall()))
+        for nm in ('~', '~/x', '~/'):
+            yield {'kind': 'tilde', 'name': nm, 'euid': ghost}          # an effective uid without an account: left unchanged
     # many directories: the one added first still wins, the one added last is still consulted
     for n in (16, 17, 18, 33, 64, 65, 66, 130, 300):
         for first, last in (('d1', 'd3'), ('missing', 'd2'), ('d3', 'missing'), ('d2', 'd2')):
@@ -202,8 +206,10 @@ def judge(spec, events, death):
         if not rs or rs[0]['rc'] != 0:
             v.skipped = True        # cannot change the effective uid here (not root)
             return v
-        home = pwd.getpwuid(spec['euid']).pw_dir
-        want = home + spec['name'][1:]
+        try:
+            want = pwd.getpwuid(spec['euid']).pw_dir + spec['name'][1:]
+        except KeyError:
+            want = spec['name']
         v.nontrivial = True
         v.notes['tilde_forms'] = 1
         if not p or unhx(p[0]['v']) != want:
